@@ -10,6 +10,7 @@ Server semantics (RabbitMQ documentation):
     `x-dead-letter-routing-key`; `expiration` is removed from a dead-lettered message
   * reject/nack with requeue=True puts the message back at its original position
   * basic.qos(global=False) is a per-consumer limit taken over by consumers started afterwards
+  * a queue hands its messages to its consumers round-robin, skipping those at their limit
   * basic.cancel stops deliveries; unacked deliveries stay unacked until settled or the
     channel closes; closing the connection requeues them
   * an unknown delivery tag closes the channel (PRECONDITION_FAILED)
@@ -70,6 +71,7 @@ class Server:
         self.cmdlog: list = []
         self._timer = None
         self.reorder = False
+        self.rr: dict[str, int] = {}  # per queue: index of the consumer that is served next
         loop.select_hooks.append(self._pump)
 
     # -- request handling -----------------------------------------------------------------
@@ -156,14 +158,19 @@ class Server:
                     m = l.pop(0)
                     self._dead_letter(q, m)
                     progress = True
-            for c in self.consumers:
-                if not c["active"]:
-                    continue
-                l = self.queues.get(c["queue"])
-                while l and (c["prefetch"] == 0 or len(c["unacked"]) < c["prefetch"]):
-                    # head may have expired meanwhile
+            # one message at a time per queue, round-robin over its consumers with capacity
+            for q, l in self.queues.items():
+                cs = [c for c in self.consumers if c["queue"] == q and c["active"]]
+                while l and cs:
                     if l[0].expire_ns is not None and l[0].expire_ns <= now:
+                        break  # head expired meanwhile: handled by the expiry pass
+                    ready = [c for c in cs if c["prefetch"] == 0 or len(c["unacked"]) < c["prefetch"]]
+                    if not ready:
                         break
+                    start = self.rr.get(q, 0)
+                    order = sorted(ready, key=lambda c: (self.consumers.index(c) - start) % len(self.consumers))
+                    c = order[0]
+                    self.rr[q] = (self.consumers.index(c) + 1) % len(self.consumers)
                     m = l.pop(0)
                     dtag = c["chan"]._next_dtag()
                     c["unacked"][dtag] = m
